@@ -8,7 +8,8 @@
                              2 decimal_to_value (u128) on an arbitrary valid Decimal d
    Errors of the backward direction: Err 1 "`value` is too big", Err 2 "invalid scale",
    Err 3 integer conversion (TryFromIntError). *)
-From GV Require Import lib.Base C43.Model.
+From GV Require Import lib.Base.
+From GV Require Export C43.Model.   (* the case lines use mkDec / FSome / ... *)
 Open Scope Z_scope.
 
 Inductive bck := BNA | BPanic | BRes (r : res Z).
@@ -28,9 +29,13 @@ Definition fwd_eqb (a b : fwd) : bool :=
   end.
 Definition reqb (a b : res Z) : bool :=
   match a, b with Ok x, Ok y => x =? y | Err x, Err y => x =? y | _, _ => false end.
+(* the model encodes a panic of the backward direction as Err 0 (Model.E_PANIC); the driver
+   never prints (BRes (Err 0)) *)
 Definition bck_eqb (m : option (res Z)) (b : bck) : bool :=
   match m, b with
   | None, BNA => true
+  | Some (Err 0), BPanic => true
+  | Some (Err 0), BRes _ => false
   | Some r, BRes r' => reqb r r'
   | _, _ => false
   end.
@@ -40,7 +45,6 @@ Definition back_kind (k : Z) (d : dec) (decimals : Z) : res Z :=
   else if k =? 1 then decimal_to_signed_value d decimals
   else decimal_to_value d decimals.
 
-(* the model never panics in the backward direction, so a BPanic line is a mismatch *)
 Definition corr_b (c : case) : bool :=
   match c with
   | Rt k num decimals f bk =>
@@ -163,5 +167,15 @@ Definition known_b (c : case) : Z :=
         | _ => 0
         end
       else 0
-  | Back _ _ _ _ => 0
+  | Back k d decimals bk =>
+      (* class 6: "`value` is too big" is raised while the rescaled Decimal has a scale >= 31;
+         formatting it for the error message panics.  j = multiplications by ten that fit 96 bits *)
+      match bk with
+      | BPanic =>
+          if negb (dm d =? 0) && (dsc d <? decimals) then
+            let j := Z.min (decimals - dsc d) (digits10 40 (M96 / dm d)) in
+            if (31 <=? dsc d + j) && negb (in_s 128 (sgn_mant d * 10 ^ (decimals - dsc d))) then 6 else 0
+          else 0
+      | _ => 0
+      end
   end.
